@@ -181,7 +181,13 @@ func (p *parallelNode) nextAppend(index int, plan planNode) (bool, error) {
 	return true, nil
 }
 
-func (p *parallelNode) Source() planNode { return p.multiscan }
+func (p *parallelNode) Source() planNode {
+	if p.multiscan == nil {
+		// a nil *multiScanNode must not become a non-nil planNode
+		return nil
+	}
+	return p.multiscan
+}
 
 func (p *parallelNode) Children() []planNode {
 	return p.children
